@@ -3,3 +3,4 @@ from . import common  # noqa
 from . import lexid_  # noqa
 from . import v2version  # noqa
 from . import vcs  # noqa
+from . import cli  # noqa
